@@ -65,18 +65,18 @@ func mutateInfo(T *gen.Torrent, muts []MetaMut, r *simrt.Rand) []byte {
 		case "piece_length":
 			info["piece length"] = m.Int
 		case "pieces_cut":
-			if p, ok := info["pieces"].([]byte); ok {
+			if p, ok := info["pieces"].(string); ok {
 				info["pieces"] = p[:max(0, len(p)-m.N)]
 			}
 		case "pieces_grow":
-			if p, ok := info["pieces"].([]byte); ok {
-				info["pieces"] = append(append([]byte(nil), p...), r.Bytes(m.N)...)
+			if p, ok := info["pieces"].(string); ok {
+				info["pieces"] = p + string(r.Bytes(m.N))
 			}
 		case "type":
 			switch info[m.Key].(type) {
 			case int64:
 				info[m.Key] = []byte("12")
-			case []byte:
+			case string, []byte:
 				info[m.Key] = int64(7)
 			default:
 				info[m.Key] = []byte("x")
